@@ -606,6 +606,16 @@ class C18(Check):
                     seen.add(s)
                     self._count("mut:" + kind)
                     yield {"s": s, "exp": None, "u": "mut", "kind": "mut:" + kind}
+        # random token soup: no structure assumed at all
+        soup = ["a", "b*", "and", "or", "not", " ", "  ", "\t", "(", ")", "@", "'", "\"", "\\", ":", "/", "i", "@id_glob@", "@id_re/i@",
+                "@data_glob:", "@data_literal/:", "k", "@x", "'a b'", "\"q\\\"\"", "\x85", "\u2003", "*", "[", "{9}", "\\\\"]
+        for _ in range(3000 if quick else 30000):
+            s = "".join(rng.choice(soup) for _ in range(rng.randrange(1, 9)))
+            if s in seen or has_bare_keyword(s):     # the D14c family has its dedicated cases
+                continue
+            seen.add(s)
+            self._count("soup")
+            yield {"s": s, "exp": None, "u": "mut", "kind": "soup"}
         # dedicated cases of the known findings (few, last)
         for s in ["@data_glob:a:b@*", "x or @data_glob:a:b@*", "not @data_re:a:0@.*", "@data_literal:l:x@y and a",
                   "@data_glob/i:'a:b:c'@\"\""]:
